@@ -13,7 +13,7 @@ claims = {
    text=("Contracts on the real code: Action.Action, ToSeccompAction (total map, unset/unknown fails closed to KILL_PROCESS), sockFilter (lossless copy, quantified loop invariant), "
          "ExportBPF, Builder.Build (call-site obligation: the Policy handed to go-seccomp-bpf has exactly the translated default action, group 0 = ALLOW for Allow, group 1 = TRACE for Trace), "
          "package initialiser (actTrace constant). All obligations discharged by SMT for all inputs."),
-   note=TRUST + "ASSUMED, not verified: go-seccomp-bpf Policy.Assemble compiles the policy correctly and x/net/bpf.Assemble is lossless (dependency code; the cBPF program itself is not interpreted yet); cmd/runprog config.cleanTrace is not under contract yet.",
+   note=TRUST + "ToSeccompAction also carries C03 (a filter kill must be KILL_PROCESS so that it ends the run). ASSUMED, not verified: go-seccomp-bpf Policy.Assemble compiles the policy correctly and x/net/bpf.Assemble is lossless (dependency code; the cBPF program itself is not interpreted yet); cmd/runprog config.cleanTrace is not under contract yet.",
    design_ref="DESIGN.md §4 C01"),
  "C02": dict(level="proof",
    text=("Proof part (all register values, all syscall numbers): runner/ptrace tracerHandler.Handle against a decode table taken from the system call signatures - for each of the 35 path-taking calls it decodes, exactly one policy query (two for rename/renameat/renameat2/linkat) is logged in ghost Q with the access class of the call "
@@ -37,7 +37,7 @@ claims = {
  "C05": dict(level="proof",
    text=("Raw in-child mount sequence (forkAndExecInChild, model K): loop invariant over all mount entries (each mounted with exactly its source/target/type/flags/data; bind-read-only entries remounted with at least their own flags plus REMOUNT), "
          "pivot_root -> detach old root -> remove it -> read-only remount of / required at exec whenever a pivot root is configured; bit-level facts proved as bv lemmas. "),
-   note=TRUST + "kernel model K; precondition: mount targets are distinct pointers; that these mounts make the host unreachable is kernel behaviour. mount.Builder / Mount.Mount / container initFileSystem not under contract yet.",
+   note=TRUST + "kernel models K (raw child) and M (package syscall mounts); precondition: mount targets are distinct pointers. Container side: mount.Mount.Mount (each configured mount issued with exactly its own arguments; read-only binds remounted on the same target with at least their own flags plus MS_REMOUNT), container initFileSystem (root tmpfs -> chdir -> all configured mounts -> pivot_root(ContainerRoot) -> lazy unmount and removal of exactly the old root -> symlinks and masks only after pivot+detach -> nil only if the last remount of / was read-only), maskPath. initContainer/handleConf are not under contract, so initFileSystem is proved under its own precondition (fresh mount state); mount.Builder is not under contract. That these mounts make the host unreachable is kernel behaviour.",
    design_ref="DESIGN.md §4 C05"),
  "C06": dict(level="proof",
    text=("Descriptor shuffle of forkAndExecInChild proved with quantified loop invariants over the ghost descriptor table for all lists (length, order, repeats, close markers, overlaps with the scratch area and with the sync/exec descriptors): "
@@ -50,8 +50,9 @@ claims = {
    note=TRUST + "kernel model K (child) and parent-side model of Kill/Wait4/Close/Socketpair. Parent side: syncWithChild/Start invoke the callback at most once, only after the ready word was read and before the ack is written, with the pid fork returned; on a callback error or a child-reported error handleChildFailed kills and reaps that pid before returning a non-nil error. ASSUMED (A-K4): reads on the sync socket return 0, 8 or 24 bytes (readChildErr abstracts). Container handleExecve$1 (syncPid relay) is under contract for the protocol state only; that the relayed pid is the host-side pid is kernel behaviour (SCM_CREDENTIALS).",
    design_ref="DESIGN.md §4 C07"),
  "C08": dict(level="proof",
-   text=("PrepareRLimit: length and CPU/CORE entries exact for all records (positions of the middle entries not yet, see note); ptracer.checkUsage: time = utime in ns, memory = maxrss*1024, MLE over TLE over Normal for all 64-bit values."),
-   note=TRUST + "not decided yet: positions/values of DATA..NOFILE entries of PrepareRLimit (solver timeouts through seven conditional appends), the rlimit loop of forkAndExecInChild, pipe.NewBuffer.",
+   text=("PrepareRLimit: length and CPU/CORE entries exact for all records (CPU hard limit never below the soft one); the rlimit loop of forkAndExecInChild issues prlimit64(0, Res_k, {Cur_k, Max_k}, NULL) with exactly the k-th listed entry's resource and soft/hard values (call-site obligation), every entry up to the loop index has been set (invariant), and a failure ends the child with the entry's index (model K); ptracer.checkUsage: time = utime in ns, memory = maxrss*1024, MLE over TLE over Normal for all 64-bit values; "
+         "output collector (pipe.NewBuffer/NewPipe and its copy goroutine, model C): the cap handed to the copy is max+1, at most that many bytes reach the buffer, the rest of the stream is drained to EOF unconditionally and only then is the read end closed."),
+   note=TRUST + "not decided: positions/values of the DATA..NOFILE entries of PrepareRLimit (seven conditional appends time out; withdrawn from the contract). io.CopyN/io.Copy are modelled, not verified; that draining prevents SIGPIPE/blocking is kernel pipe behaviour.",
    design_ref="DESIGN.md §4 C08"),
  "C09": dict(level="proof",
    text=("For all 2^32 wait words: container.convertReply and ptracer handle/trace equal the README status table (main process); an exit or fatal signal of a secondary process leaves the run going with status Normal; "
@@ -65,6 +66,11 @@ claims = {
          "and once LOST every later call returns an error without receiving. Duality lemmas (host send/recv steps mirror container recv/send steps; every exec path ends idle) are discharged by SMT."),
    note=TRUST + "The two ends are verified separately against the shared automaton; that the socket delivers messages in order is C19 (assumed here). Channel roles (recvCh/done) are assumed contracts; the user's sync callback is assumed not to touch the socket. Goroutine interleavings inside Execve are abstracted by the channel-role contracts. 'fails promptly instead of hanging' is proved as 'returns an error without a blocking receive', not as a time bound.",
    design_ref="DESIGN.md §4 C10"),
+ "C13": dict(level="proof",
+   text=("Reset (model R): removeContents returns nil only if RemoveAll returned nil for dir/name of every name the complete directory listing (Readdirnames(-1)) returned, whatever the name; handleReset sends the success reply only after every tmpfs mount of the configuration was emptied that way (quantified over all mounts) and an error reply otherwise. "
+         "Sealed executables (model F): memfd.New creates with MFD_CLOEXEC|MFD_ALLOW_SEALING; DupToMemfd returns a file only if the reader was copied to EOF into that very descriptor, then all four seals (SEAL|SHRINK|GROW|WRITE) were added to it, then it was positioned at offset 0 - in that order."),
+   note=TRUST + "os.RemoveAll/Readdirnames/ReadFrom/fcntl/lseek are modelled from their documentation, not verified; that seals cannot be removed and that RemoveAll(nil) means gone is kernel/library behaviour; entries created between listing and reply (nothing runs during Reset: C10 typestate) are out of scope; host-side Reset only for the protocol (C10).",
+   design_ref="DESIGN.md §10.2"),
  "C14": dict(level="proof",
    text=("Index alignment of batch file operations, both ends, for all batch sizes and all success/failure mixtures: container handleOpen/handleDelete/handleSymlink produce one error slot per item (loop invariants), the number of descriptors sent equals the number of empty error slots (rank), "
          "host Open assigns the rank(k)-th received descriptor to the k-th result exactly when slot k is empty and returns error-only results otherwise; Symlink/Delete results align with the request; descriptor count mismatches end in an error, never a mis-assignment. "
@@ -81,9 +87,25 @@ claims = {
          "found and fixed: clen returned len+1 for unterminated buffers (slice bounds panic)."),
    note=TRUST + "kernel model T for process_vm_readv / PEEKDATA; runner/ptrace handle_linux.go functions not under contract yet.",
    design_ref="DESIGN.md §4 C15"),
+ "C16": dict(level="proof",
+   text=("Arming only (thin): Builder.startContainer starts the container init with SysProcAttr.Pdeathsig == SIGKILL on the path that reaches exec.Cmd.Start; the ptrace option word installed for every traced pid before its first continue contains PTRACE_O_EXITKILL (C03 obligations); the container serve loop never returns nil (every transport error ends it)."),
+   note=TRUST + "that Pdeathsig/EXITKILL/pid-namespace teardown kill everything 'within bounded time' whenever the controller dies is kernel behaviour and a statement over crash instants; Init's deferred os.Exit and the host goroutines are not under contract. This is a claim about the arming calls, nothing more.",
+   design_ref="DESIGN.md §10.2"),
+ "C19": dict(level="proof",
+   text=("Receive side (model S: recvmsg installs control-data descriptors on arrival): RecvMsg either returns exactly the arrived descriptors in order, none of them closed, or returns an error with no descriptors and every arrived descriptor closed - on every path, including truncated messages (found and fixed: a truncated message leaked its descriptors) and parser rejections; parseMsg and its deferred clean-up, closeReceivedFds. "
+         "Send side: the control data handed to sendmsg is exactly [SCM_RIGHTS of m.Fds iff any] followed by [SCM_CREDENTIALS of m.Cred iff given], assembled afresh per call, payload untouched. Constructors return sockets with 4096-byte control buffers and non-nil connections."),
+   note=TRUST + "A-S1: ParseSocketControlMessage/ParseUnixRights/ParseUnixCredentials never fail on kernel-written control data and describe exactly the installed descriptors (at most one SCM_RIGHTS item per message); 'whole and in order' and close-on-exec on arrival are SOCK_SEQPACKET / MSG_CMSG_CLOEXEC kernel behaviour inside net.UnixConn (not verified); gob framing in container/socket_linux.go is not under contract.",
+   design_ref="DESIGN.md §10.2"),
+ "C20": dict(level="proof",
+   text=("Partial (ownership and pid writes; model G: directory creation under interference, where only a single mkdir is atomic): EnsureDirExists returns nil only if this very call created the directory (found and fixed: stat followed by MkdirAll told several concurrent creators that each had created the group); "
+         "V2.New marks a handle as not-existing only if its own mkdir created the directory; V2.Destroy and V1.Destroy issue rmdir for the group's directories only through a handle that is not marked existing, and for every controller directory of such a handle; "
+         "AddProcesses issues one write per pid carrying exactly that pid's decimal text; Existing() returns the flag."),
+   note=TRUST + "NOT decided: usage readers and their units (ns / bytes / count) on v1 and v2 - they parse file contents through bufio.Scanner/strings.Fields, which is string-content code outside the prover's reach and no bounded stand-in was built; limits written; newV1/newV2/V1.New builders and randomBuild; that writing a pid moves exactly that process is kernel behaviour. 'Distinct group nested under its parent even when created concurrently' is proved only as the mkdir-atomicity consequence above.",
+   design_ref="DESIGN.md §10.2"),
  "C18": dict(level="proof",
-   text=("CheckRead/CheckWrite/CheckStat cascade (write => read => stat) and refusal => ban iff soft-ban covers else kill, over an abstract cover predicate; SyscallCounter.Check step contract; budget lemmas over histories; termination of the matcher."),
-   note=TRUST + "the string-content matcher IsInSetSmart is abstracted (deterministic function of set and name); its agreement with the documented cover relation is not decided yet (bounded stand-in planned).",
+   text=("CheckRead/CheckWrite/CheckStat cascade (write => read => stat) and refusal => ban iff soft-ban covers else kill, over an abstract cover predicate; SyscallCounter.Check step contract; budget lemmas over histories; termination and memory safety of the matcher. "
+         "Bounded part (labelled bounded): IsInSetSmart against the documented cover relation for every path over {a,b} up to 4 (thorough: 6) levels plus the empty path and /, against every set of one or two entries; found and fixed: the children entry /* admitted / itself."),
+   note=TRUST + "the string-content matcher IsInSetSmart is abstracted in the proofs (deterministic function of set and name); its agreement with the documented cover relation is bounded-checked only, never counted as proved; realPath (EvalSymlinks) is abstract.",
    design_ref="DESIGN.md §4 C18"),
 }
 for k in claims: claims[k].setdefault("technique", "contract-based deductive verification: VC generation over go/ssa from //@ contracts, SMT (z3 5.1/4.8, cvc5)")
